@@ -6,6 +6,7 @@
 package relay
 
 import (
+	upgradetypes "github.com/cosmos/cosmos-sdk/x/upgrade/types"
 	xibctypes "github.com/teleport-network/teleport/x/xibc/types"
 	"github.com/teleport-network/teleport/x/xibc"
 	"bytes"
@@ -454,6 +455,29 @@ func (s *Sys) Apply(op string) (obs, class string, viols []bfs.Viol) {
 		tx := on.CosmosTx(on.Accounts["r1"], msg)
 		obs, class = s.stepOther(on, "upd", [][]byte{tx}, add)
 		return
+	case "upgrade":
+		// the registered software upgrade (v0.2) executes on a chain: system contracts are re-installed and the xibc state is
+		// reset; whatever it keeps or drops, the chain-side send counters and the packet contract's must still agree and
+		// hold no commitment the contract's counter does not cover. The search ends here (the ledger does not model the reset).
+		c := s.w.Chains[long[f[1]]]
+		s.w.Do(c, func(ctx sdk.Context) {
+			if err := c.App.UpgradeKeeper.ScheduleUpgrade(ctx, upgradetypes.Plan{Name: "v0.2", Height: ctx.BlockHeight() + 1}); err != nil {
+				panic(err)
+			}
+		})
+		s.w.Block(c)
+		for _, d := range append(append([]string{}, s.w.Order...), "nochain-77") {
+			if d == c.Name {
+				continue
+			}
+			nk := c.App.XIBCKeeper.PacketKeeper.GetNextSequenceSend(c.ReadCtx(), c.Name, d)
+			nc := c.ContractNextSeq(d)
+			if nk != nc {
+				add("C04", "sequence-counters-disagree-after-upgrade", fmt.Sprintf("after the v0.2 upgrade on %s towards %s: chain-side counter %d, packet contract %d", short[c.Name], shortOr(d), nk, nc))
+			}
+		}
+		s.dead = "upgraded"
+		return "upgraded", "software upgrade executed", viols
 	case "recv":
 		obs, class = s.stepRecv(f[1], f[2], add)
 		return
@@ -944,6 +968,9 @@ func (s *Sys) valueState() string {
 
 // Check evaluates the state invariants (C01 receipts = ledger, C03 conservation).
 func (s *Sys) Check() []bfs.Viol {
+	if s.dead != "" {
+		return nil // (after the software upgrade, which resets the xibc state on purpose, the ledger no longer applies)
+	}
 	var viols []bfs.Viol
 	add := func(prop, sig, detail string) {
 		viols = append(viols, bfs.Viol{Sig: prop + ":" + sig, Detail: detail})
@@ -1309,9 +1336,12 @@ var ManySendsScript = func() []string {
 // native action fail after the EVM call itself succeeded, alone and next to an ordinary transfer.
 var HookScript = []string{"send A B erc20+hookfail 1", "send A B erc20 3", "upd B A", "upd B A", "recv A>B#1 g1", "recv A>B#2 g1", "upd A B", "upd A B", "ack A>B#1 g1", "ack A>B#2 g1"}
 
+// UpgradeScript: traffic, then the software upgrade on the sending chain.
+var UpgradeScript = []string{"send A B erc20 3", "send A B native 1", "send A C erc20 1", "upd B A", "upd B A", "recv A>B#1 g1", "upgrade A"}
+
 func ScriptedViolations(prop string) (steps int, out []ScriptViol) {
 	seen := map[string]bool{}
-	for _, script := range [][]string{RestartScript, ManySendsScript, HookScript} {
+	for _, script := range [][]string{RestartScript, ManySendsScript, HookScript, UpgradeScript} {
 		s := New(Config{Chains: 3, MaxSends: 14, Prop: prop})
 		for i, op := range script {
 			_, _, vs := s.Apply(op)
